@@ -52,8 +52,10 @@ def summarize(obs):
 def run(ctx):
     rc, out, obs = ctx.gotest("p9", TEST, HARNESS, timeout=1500 if ctx.thorough else 600)
     if rc != 0 or not obs:
+        # the subject may have crashed the test binary: what was observed until then is still evaluated
         ctx.harness_broken("harness %s failed (rc=%d)" % (TEST, rc), out)
-        return
+        if not obs:
+            return
     for o in obs:
         if o.get("broken"):
             ctx.harness_broken("harness lost the connection to the server: %s" % o["broken"], str(o["steps"][-3:]))
